@@ -302,7 +302,7 @@ def _stop_rule(ctx, repo, worker, lp, pre, env, facts, interior, NB, T, S, fs0):
     ctx.shared["C06.count"] = cnt
 
 
-def _first_batch_is_real(ctx, repo, worker, lp, pre, env, facts, T):
+def _first_batch_is_real(ctx, repo, worker, lp, pre, env, facts, T, report=True):
     """A worker processes the batch at its start `first_s` unconditionally (do-while loop / range with at least one element).  For worker i > 0 that grid point is a batch of the
     recording only when the batch before it did not reach the end: first_s + 2*TAPER < ns.  Otherwise the worker must leave before it opens anything:
     `if first_s > 0 and first_s + 2*TAPER >= ns: return` ahead of the loop (any spelling of the two comparisons)."""
@@ -339,6 +339,8 @@ def _first_batch_is_real(ctx, repo, worker, lp, pre, env, facts, T):
                 has_end = True
         if has_pos and has_end:
             ok, where = True, st
+    if not report:
+        return ok
     ctx.check(ok, worker, where if where is not None else lp, src(where.test)[:80] if where is not None else "no early return for a start in the last 2*TAPER samples",
               "a worker whose first grid point lies in the last 2*TAPER samples (the batch before it already reaches the end) leaves without processing anything",
               "a worker always processes the batch at its start: when that start lies within the last 2 * SAMPLES_TAPER samples of the recording (short recordings / many workers: "
@@ -414,6 +416,12 @@ def _stop_rule_start_ownership(ctx, repo, worker, lp, pre, env, facts, NB, T, S)
             # need > 0 ; d > 0 or d >= 0 given
             if (strict and d == need) or (not strict and d == need - Poly.const(1)) or (strict and (need - d).const_value() is not None and (need - d).const_value() >= 0):
                 okg = True
+    if not okg:
+        # the same is established by an early return before the loop (the worker's FIRST grid point is a real batch) together with the break at last_s == ns inside
+        # the loop (no grid point after the batch that reached the end)
+        brk = any(isinstance(st_, ast.If) and any(isinstance(x_, ast.Break) for x_ in ast.walk(st_)) and "last_s" in src(st_.test) and src(st_.test).replace(" ", "").endswith(".ns")
+                  for st_ in lp.body)
+        okg = brk and _first_batch_is_real(ctx, repo, worker, lp, pre, env, facts, T, report=False)
     ctx.check(okg, worker, lp, f"while {src(lp.test)[:80]}", "a grid point is processed only when the batch before it did not reach the end of the recording (first_s == 0 or first_s + 2*TAPER < ns)",
               f"`while {src(lp.test)[:60]}` lets a worker start a batch at any grid point below max_s: when the batch that reaches the end of the recording belongs to the previous worker and another "
               "grid point k*stride still lies in the last 2*TAPER samples inside this worker's chunk, this worker processes a batch that does not exist for other worker counts - an extra RMS row / "
